@@ -184,6 +184,13 @@ select_idle(struct mux *mux, struct value value, struct mux_input **input)
 }
 
 static int
+cb_tt_changed(struct chan *chan, void *ptr)
+{
+	UNUSED(chan);
+	return mux_reselect(ptr);
+}
+
+static int
 connect_cpu(struct bay *bay, struct nosv_cpu *mcpu)
 {
 	struct nosv_breakdown_cpu *bcpu = &mcpu->breakdown;
@@ -208,6 +215,12 @@ connect_cpu(struct bay *bay, struct nosv_cpu *mcpu)
 
 	if (mux_set_input(&bcpu->mux0, 1, tt) != 0) {
 		err("mux_set_input tt failed");
+		return -1;
+	}
+
+	/* The selection depends on the task type too */
+	if (bay_add_cb(bay, BAY_CB_DIRTY, tt, cb_tt_changed, &bcpu->mux0, 1) == NULL) {
+		err("bay_add_cb failed");
 		return -1;
 	}
 
